@@ -13,7 +13,8 @@ import glob, json, os, re, shutil, sys
 V = "/verif"
 refout = sys.argv[1] if len(sys.argv) > 1 else "/tmp/refout"
 matrix = sys.argv[2] if len(sys.argv) > 2 else "/tmp/refmatrix"
-MAX_PER_PROPERTY = 4
+OFFSET = int(sys.argv[3]) if len(sys.argv) > 3 else 0  # later rounds: r4.. (offset 3)
+MAX_PER_PROPERTY = int(sys.argv[4]) if len(sys.argv) > 4 else 4
 
 # package dirs each property is anchored in (from the committed evidence)
 anch = {}
@@ -43,7 +44,7 @@ for d in sorted(glob.glob(f"{refout}/C*/[0-9]")):
     patch = f"{d}/patch.diff"
     if not os.path.exists(patch):
         continue
-    name = f"{pid}-r{k}"
+    name = f"{pid}-r{int(k) + OFFSET}"
     out = f"{V}/refactors/{name}"
     os.makedirs(out, exist_ok=True)
     shutil.copy(patch, f"{out}/patch.diff")
